@@ -1080,6 +1080,15 @@ pub fn flush_events_ids(ctx: &mut Ctx, opname: &str, n: usize, lay: &'static str
             format!("{:?} case={}", e, ctx.cur_case),
         );
         ctx.count("ledger_events", 1);
+        if ctx.args.flag("c04") {
+            // by the letter of C04 every such event is an operation touching or destroying a slot
+            // that does not hold a live element, whatever made the crate lose track of it
+            ctx.violation(
+                "C04",
+                format!("op={}|ncap={}|lay={}|fault={}|touched_non_live_slot:{}", opname, ncls(n), lay, f, ev_kind(&e).split('@').next().unwrap_or("")),
+                format!("{:?} case={}", e, ctx.cur_case),
+            );
+        }
     }
     kinds
 }
